@@ -3,6 +3,7 @@ package vc
 import (
 	"fmt"
 	"go/types"
+	"regexp"
 	"sort"
 	"strings"
 
@@ -51,7 +52,23 @@ func pkgShort(path string) string {
 
 // typeStr renders a type with short package qualifiers.
 func typeStr(t types.Type) string {
-	return types.TypeString(t, func(p *types.Package) string { return p.Name() })
+	return canonAliases(types.TypeString(t, func(p *types.Package) string { return p.Name() }))
+}
+
+var aliasRe = regexp.MustCompile(`\b(byte|rune)\b`)
+
+// canonAliases writes the predeclared aliases byte and rune as the types they denote, so that []byte and []uint8 (one
+// type in Go) share one heap class and one dynamic type id.
+func canonAliases(s string) string {
+	if !strings.Contains(s, "byte") && !strings.Contains(s, "rune") {
+		return s
+	}
+	return aliasRe.ReplaceAllStringFunc(s, func(m string) string {
+		if m == "byte" {
+			return "uint8"
+		}
+		return "int32"
+	})
 }
 
 // canonFn renders a function name canonically: pkg.F, (*pkg.T).M, (pkg.T).M, pkg.F$1.
